@@ -187,30 +187,57 @@ def deltaChanged (prev : WR) (r : DReq) : Bool :=
   if r.ty.managed && prev.wildcard then (!r.sub.isEmpty || !r.unsub.isEmpty)
   else (deltaWatched prev.names r).2.2
 
-/-- The watch update inside `shouldRespondDelta`. -/
-def deltaUpdate (prev : WR) (r : DReq) : WR :=
-  let w1 : WR := { prev with names := deltaNames prev r, always := false }
-  if r.nonce = "" then w1 else { w1 with lastError := "", nonceAcked := r.nonce }
+/-- The request carries a subscription change (`resource_names_subscribe` / `_unsubscribe`).  A delta
+    client sends every change exactly once and may attach it to ANY request - also to a NACK or to
+    the ACK of a response that a newer push has overtaken (Envoy: `getNextRequestWithAck`). -/
+def DReq.carries (r : DReq) : Bool := !r.sub.isEmpty || !r.unsub.isEmpty
 
-/-- `shouldRespondDelta`. -/
-def shouldRespondDeltaG (nilGuard : Bool) (s : State) (r : DReq) : DRes :=
+/-- A stale ACK: a non-empty nonce that is not the last one sent. -/
+def deltaStale (prev : WR) (r : DReq) : Prop := r.nonce ≠ "" ∧ r.nonce ≠ prev.nonceSent
+
+instance (prev : WR) (r : DReq) : Decidable (deltaStale prev r) := by unfold deltaStale; infer_instance
+
+/-- The watch update inside `shouldRespondDelta`.  `detached` = the request is a NACK or a stale ACK
+    whose subscription change is handled like a spontaneous request (no ACK is recorded). -/
+def deltaUpdateG (detached : Bool) (prev : WR) (r : DReq) : WR :=
+  let w1 : WR := { prev with names := deltaNames prev r, always := false }
+  if r.nonce = "" ∨ detached = true then w1 else { w1 with lastError := "", nonceAcked := r.nonce }
+
+def deltaUpdate (prev : WR) (r : DReq) : WR := deltaUpdateG false prev r
+
+/-- The current-nonce / spontaneous tail of `shouldRespondDelta`. -/
+def deltaTail (detached : Bool) (s : State) (prev : WR) (r : DReq) : DRes :=
+  .out (deltaChanged prev r || prev.always) (s.set r.ty (some (deltaUpdateG detached prev r)))
+
+/-- First request of a type on the stream: the watch is created and the request answered. -/
+def deltaFirst (s : State) (r : DReq) : DRes :=
+  let d := deltaWatched [] r
+  let res := if r.ty.managed && d.2.1 then [] else d.1
+  .out true (s.set r.ty (some { names := res, wildcard := d.2.1 }))
+
+/-- `shouldRespondDelta`.  `keepSub = false` is the code before the repair "a subscription change
+    attached to a NACK or to a stale ACK is not dropped with it": there a NACK and a stale ACK returned
+    before looking at the subscription change. -/
+def shouldRespondDeltaG (nilGuard : Bool) (keepSub : Bool) (s : State) (r : DReq) : DRes :=
   match r.err with
   | some msg =>
     match s r.ty with
-    | none => if nilGuard then .out false s else .crash
-    | some w => .out false (s.set r.ty (some { w with lastError := msg }))
+    | none =>
+      if keepSub && r.carries then deltaFirst s r
+      else if nilGuard then .out false s else .crash
+    | some w =>
+      let s1 := s.set r.ty (some { w with lastError := msg })
+      let w1 : WR := { w with lastError := msg }
+      if keepSub && r.carries then deltaTail true s1 w1 r else .out false s1
   | none =>
     match s r.ty with
-    | none =>
-      let d := deltaWatched [] r
-      let res := if r.ty.managed && d.2.1 then [] else d.1
-      .out true (s.set r.ty (some { names := res, wildcard := d.2.1 }))
+    | none => deltaFirst s r
     | some prev =>
-      if r.nonce ≠ "" ∧ r.nonce ≠ prev.nonceSent then .out false s
-      else
-        .out (deltaChanged prev r || prev.always) (s.set r.ty (some (deltaUpdate prev r)))
+      if deltaStale prev r then
+        (if keepSub && r.carries then deltaTail true s prev r else .out false s)
+      else deltaTail false s prev r
 
-def shouldRespondDelta : State → DReq → DRes := shouldRespondDeltaG true
+def shouldRespondDelta : State → DReq → DRes := shouldRespondDeltaG true true
 
 /-- The watch update of `sendDelta` after a successful send: optional new resource names (wildcard
     types whose generator is not delta-aware) and the nonce. -/
